@@ -123,6 +123,7 @@ class Effects:
         self._suppress_fn = suppress or (lambda site, exc, origin=None: None)
         self.suppressed = []  # (site, exc, reason)
         self.untyped_arith = []  # binops whose operands could not be typed (fail-open)
+        self.parallel_index_log = {}  # (function, subscript, walked sequence) -> verdict of the parallel-index rule
         self.sites = {}
         self.incoming = {}  # id(handler node) -> {exc: witness}
         self.esc = {k: {} for k in self.ix.funcs}
@@ -376,9 +377,62 @@ class Effects:
                     "TypeError": "comparison of %s with %s before their offset-awareness has been aligned" % (ast.unparse(a), ast.unparse(b))},
                     why="naive-vs-aware"))
 
+    def _leneq(self):
+        le = getattr(self.cg, "_leneq", None)
+        if le is None:
+            from .leneq import LenEq
+            le = self.cg._leneq = LenEq(self.ix, self.cg)
+        return le
+
+    def _parallel_index(self, n, stmt, f, stack, sites, idx, extra):
+        """B[idx (+ extra)] where idx counts the elements of ANOTHER local sequence A (for idx, x in enumerate(A) /
+        for idx in range(len(A))): IndexError unless len(B) >= len(A) is established (length-equality analysis) or a
+        dominating test bounds idx by len(B)"""
+        base = n.value
+        root = base
+        while isinstance(root, ast.Subscript):
+            root = root.value
+        if not isinstance(root, ast.Name):
+            return False        # attribute-held lists are outside the analysis
+        loops = [(lp, seq) for lp, seq in loop_index_map(f).get(idx, []) if any(x is n for x in ast.walk(lp))]
+        if not loops:
+            return False
+        lp, seq = loops[-1]
+        if seq is None:
+            return False
+        sroot = seq
+        while isinstance(sroot, ast.Subscript):
+            sroot = sroot.value
+        if not isinstance(sroot, ast.Name):
+            return False
+        bt, st_ = " ".join(ast.unparse(base).split()), " ".join(ast.unparse(seq).split())
+        if bt == st_:
+            return False
+        log = self.parallel_index_log
+        ent = (f.key, " ".join(ast.unparse(n).split()), st_)
+        if len_guarded(f, n, idx, bt):
+            log[ent] = "guarded by %s < len(%s)" % (idx, bt)
+            return False
+        why = None
+        grown = _length_changed_in(lp, {root.id, sroot.id})
+        if grown:
+            why = "%s changes length inside the loop" % grown
+        else:
+            ok, why = self._leneq().covers(f, n, seq, extra=0)
+            if ok:
+                log[ent] = "proved: " + why
+                return False
+        log[ent] = "UNPROVED: " + str(why)
+        sites.append(Site(f, n, stmt, "prim", stack, excs={
+            "IndexError": "%s[%s] is indexed by the position in %s, but nothing establishes len(%s) >= len(%s) (%s)" % (
+                bt, ast.unparse(n.slice), st_, bt, st_, why)}, why="parallel-index"))
+        return True
+
     def _subscript(self, n, stmt, f, stack, sites):
-        """look-ahead rule: seq[i +- k] with i a loop index"""
+        """look-ahead rule: seq[i +- k] with i a loop index; parallel-index rule: B[i] with i the position in another list"""
         sl = n.slice
+        if isinstance(sl, ast.Name) and isinstance(n.ctx, (ast.Load, ast.Store)) and sl.id in loop_index_vars(f):
+            self._parallel_index(n, stmt, f, stack, sites, sl.id, 0)
         if not isinstance(n.ctx, ast.Load):
             return
         if isinstance(sl, ast.BinOp) and isinstance(sl.op, ast.Add) and isinstance(sl.right, ast.Constant) \
@@ -388,6 +442,9 @@ class Effects:
                 sites.append(Site(f, n, stmt, "prim", stack,
                                   excs={"IndexError": "look-ahead %s[%s] without a bound on %s" % (
                                       ast.unparse(n.value), ast.unparse(sl), idx)}, why="lookahead"))
+            elif idx in loop_index_vars(f):
+                # the bound on idx refers to the sequence being walked: another sequence must be at least as long
+                self._parallel_index(n, stmt, f, stack, sites, idx, 0)
 
     # ------------------------------------------------------------------ propagation
     def _catch(self, stack, exc):
@@ -811,6 +868,62 @@ def fold_list(e, f, ix, depth=0):
             if mv and len(mv) == 1:
                 return fold_list(mv[0], f.module.toplevel, ix, depth + 1)
     return None
+
+
+def loop_index_map(f):
+    """{index name: [(loop node, sequence whose positions it counts | None)]} for `for i, x in enumerate(A)`,
+    `for i in range(len(A))`, `for i in range(k, len(A)[, step])`"""
+    cached = getattr(f, "_loop_idx_map", None)
+    if cached is not None:
+        return cached
+    out = {}
+    for n in iter_own_nodes(f.node):
+        if isinstance(n, ast.For):
+            it = n.iter
+            if isinstance(it, ast.Call) and isinstance(it.func, ast.Name):
+                if it.func.id == "enumerate" and it.args and isinstance(n.target, ast.Tuple) and n.target.elts and isinstance(n.target.elts[0], ast.Name):
+                    out.setdefault(n.target.elts[0].id, []).append((n, it.args[0]))
+                elif it.func.id == "range" and isinstance(n.target, ast.Name) and it.args:
+                    stop = it.args[0] if len(it.args) == 1 else it.args[1]
+                    seq = None
+                    if isinstance(stop, ast.Call) and isinstance(stop.func, ast.Name) and stop.func.id == "len" and len(stop.args) == 1:
+                        seq = stop.args[0]
+                    out.setdefault(n.target.id, []).append((n, seq))
+    f._loop_idx_map = out
+    return out
+
+
+def _length_changed_in(loop, names):
+    """a tracked name whose list changes length (or is rebound) inside the loop body"""
+    for s in loop.body:
+        for n in ast.walk(s):
+            if isinstance(n, ast.Call) and isinstance(n.func, ast.Attribute) and isinstance(n.func.value, ast.Name) and n.func.value.id in names \
+                    and n.func.attr in ("append", "insert", "pop", "remove", "extend", "clear"):
+                return n.func.value.id
+            if isinstance(n, (ast.Assign, ast.AugAssign)):
+                tg = n.targets if isinstance(n, ast.Assign) else [n.target]
+                for t in tg:
+                    for x in ast.walk(t) if isinstance(t, (ast.Tuple, ast.List)) else [t]:
+                        if isinstance(x, ast.Name) and x.id in names:
+                            return x.id
+            if isinstance(n, ast.Delete):
+                for t in n.targets:
+                    if isinstance(t, ast.Subscript) and isinstance(t.value, ast.Name) and t.value.id in names:
+                        return t.value.id
+    return None
+
+
+def len_guarded(f, node, idx, seq_text):
+    """a dominating test `idx < len(<seq>)` (or the negation of idx >= len(<seq>)) holds at node"""
+    from .ctx import conjuncts, enclosing_tests
+    want = {"%s < len(%s)" % (idx, seq_text), "len(%s) > %s" % (seq_text, idx)}
+    neg = {"%s >= len(%s)" % (idx, seq_text), "len(%s) <= %s" % (seq_text, idx)}
+    for test, pol in enclosing_tests(f.node, node):
+        for atom, p in conjuncts(test, pol):
+            t = " ".join(ast.unparse(atom).split())
+            if (p and t in want) or (not p and t in neg):
+                return True
+    return False
 
 
 def loop_index_vars(f):
